@@ -31,6 +31,7 @@ func (a *AsmCase) text() string { return strings.Join(a.Lines, "\n") + "\n" }
 type poolInfo struct {
 	Sigma  []string `json:"sigma"`
 	N      int      `json:"n"`
+	SymMap any      `json:"symmap"`
 	Config string   `json:"config"`
 	CfgSel string   `json:"cfgsel"`
 	Pool   []struct {
@@ -118,6 +119,13 @@ func (r *asmReplayer) onCase(raw []byte) error {
 			return err
 		}
 		r.u = newUniverse(pi.P.Sigma, pi.P.N)
+		if m, ok := pi.P.SymMap.(map[string]any); ok {
+			for sym, hx := range m {
+				var b byte
+				fmt.Sscanf(hx.(string), "%02x", &b)
+				r.u.Map[sym] = string([]byte{b})
+			}
+		}
 		// binding self-check: the concrete text of every pool entry must have the
 		// language the specification assigns to its fragment
 		for _, p := range pi.P.Pool {
